@@ -288,8 +288,8 @@ MUTANTS += [
       "log_prior: Callable,\n        log_likelihood: Callable,\n        dims: int,\n        prior_flow: Flow,\n        xp: Callable,\n        dtype: Any | str | None = None,\n        parameters: list[str] | None = None,\n        rng: np.random.Generator | None = None,\n        preconditioning_transform: Callable | None = None,\n    ):\n        super().__init__(\n            log_likelihood=log_likelihood,", "C17.args"),
 ]
 MUTANTS += [
-    M("leaving the pool context re-points the live sampler at the serial callables", "src/aspire/utils.py", "self.aspire_instance.log_prior = self.original_log_prior\n        if self.close_pool:",
-      "self.aspire_instance.log_prior = self.original_log_prior\n        sampler = getattr(self.aspire_instance, \"sampler\", None)\n        if sampler is not None:\n            sampler.log_likelihood = self.original_log_likelihood\n        if self.close_pool:", "C17.cnt"),
+    M("leaving the pool context re-points the live sampler at the serial callables", "src/aspire/utils.py", "self.aspire_instance.log_prior = self.original_log_prior\n        if self.close_pool and self.pool is not None:",
+      "self.aspire_instance.log_prior = self.original_log_prior\n        sampler = getattr(self.aspire_instance, \"sampler\", None)\n        if sampler is not None:\n            sampler.log_likelihood = self.original_log_likelihood\n        if self.close_pool and self.pool is not None:", "C17.cnt"),
 ]
 NEUTRALS = [
     M("positional constructor call rewritten with keywords", "src/aspire/samplers/smc/base.py", "super().__init__(\n            log_likelihood,\n            log_prior,\n            dims,",
